@@ -262,3 +262,57 @@ func Find(pattern string, t *Term) (*Term, Binds) {
 	})
 	return res, rb
 }
+
+// Explain returns a description of the first mismatch between pattern and t ("" if it matches).
+func Explain(pattern string, t *Term) string {
+	p := ParsePat(pattern)
+	return p.explain(t, Binds{}, "")
+}
+
+func (p *pat) explain(t *Term, b Binds, path string) string {
+	if t == nil {
+		return path + ": term missing"
+	}
+	if p.wild != "" {
+		if p.wild == "_" || p.wild == "..." {
+			return ""
+		}
+		if old, ok := b[p.wild]; ok && old.String() != t.String() {
+			return fmt.Sprintf("%s: %s bound to %.80s but found %.80s", path, p.wild, old, t)
+		}
+		b[p.wild] = t
+		return ""
+	}
+	if p.lit != "" {
+		if t.String() != p.lit {
+			return fmt.Sprintf("%s: want %s, found %.100s", path, p.lit, t)
+		}
+		return ""
+	}
+	if t.Op != p.op || (p.name != "" && p.name != "*" && t.Name != p.name) {
+		return fmt.Sprintf("%s: want %s<%s>, found %.140s", path, p.op, p.name, t)
+	}
+	n := len(p.args)
+	var pa []*pat = p.args
+	if n > 0 && p.args[n-1].wild == "..." {
+		pa = p.args[:n-1]
+		if len(t.Args) < n-1 {
+			return fmt.Sprintf("%s: too few arguments in %.100s", path, t)
+		}
+	} else if len(t.Args) != n {
+		return fmt.Sprintf("%s: %s<%s> has %d arguments, pattern has %d: %.200s", path, t.Op, t.Name, len(t.Args), n, t)
+	}
+	for i := range pa {
+		if m := pa[i].explain(t.Args[i], b, fmt.Sprintf("%s/%s<%s>[%d]", path, p.op, short(p.name, 30), i)); m != "" {
+			return m
+		}
+	}
+	return ""
+}
+
+func short(s string, n int) string {
+	if len(s) > n {
+		return s[len(s)-n:]
+	}
+	return s
+}
